@@ -27,7 +27,7 @@ func init() {
 		Rule: "multi-session histories (1-5 sessions, unique PIDs/session ids, logins placed at every split point, cleanup calls inside the window, fake-clock gaps) " +
 			"at three levels: tracker API (l1), real Read loop with parser/reassembler/tickers (l2), assembled daemon on simulated pipes (l3); " +
 			"non-trivial = at least two ssh sessions and at least one login delivered after its LOGIN record; distinct = distinct (history hash, schedule hash)",
-		Quick: 7000, Thorough: 300000,
+		Quick: 14000, Thorough: 400000,
 	})
 	register(&propDef{
 		ID: "C02", Level: "exploration",
@@ -39,7 +39,7 @@ func init() {
 		},
 		Rule: "as C01; the login of session 0 is swept systematically over every split point of its event list in half of the runs " +
 			"(split = run/2 mod (len+1)), drawn in the others; non-trivial = a correlated session with >= 2 emitted events or >= 2 ssh sessions with a late login; distinct = distinct (history hash, schedule hash)",
-		Quick: 7000, Thorough: 300000,
+		Quick: 14000, Thorough: 400000,
 	})
 	register(&propDef{
 		ID: "C04", Level: "exploration",
@@ -51,7 +51,7 @@ func init() {
 		Rule: "histories mixing ssh sessions with cron sessions (LOGIN record, no ssh login), orphan sessions (no LOGIN record), logins without session, " +
 			"records without ses and with the unset session (incl. LOGIN-typed), events after credential disposal; online monitor after every delivery; " +
 			"non-trivial = at least one uncorrelated session next to another session; distinct = distinct (history hash, schedule hash)",
-		Quick: 6000, Thorough: 250000,
+		Quick: 12000, Thorough: 350000,
 	})
 	register(&propDef{
 		ID: "C09", Level: "exploration",
@@ -62,7 +62,7 @@ func init() {
 		Rule: "PID-reuse histories: session A (login and records in every relative order, incl. all records first) ends, then session B opened by the same PID " +
 			"(login and records in every relative order), optional stray late event of A, background sessions, taped map-iteration order; " +
 			"non-trivial = both sessions' halves delivered and A ended before B began; distinct = distinct (history hash, map-order/schedule hash)",
-		Quick: 6000, Thorough: 250000,
+		Quick: 12000, Thorough: 350000,
 	})
 	register(&propDef{
 		ID: "C16", Level: "exploration",
@@ -75,7 +75,7 @@ func init() {
 			"l2: the real Read loop with its real one-minute ticker, second half arriving after a gap swept over 1..59 s and 121 s..10 min of simulated time (60-120 s generated, not judged); " +
 			"l2-stalled-loop: the Read goroutine is withheld for 35-85 simulated seconds (slow-thread fault) so that ticks are served late, halves 5-54 s apart must still correlate; " +
 			"non-trivial = a cleanup call (or ticker firing) happened between the two halves of a session; distinct = distinct (history hash, schedule hash)",
-		Quick: 4000, Thorough: 160000,
+		Quick: 8000, Thorough: 240000,
 	})
 }
 
